@@ -22,6 +22,8 @@ func c01SessionPart(t *testing.T, rec *vrec, caseIdx *int64) {
 		sc := genSessScenario(rng, idx, "session")
 		// covering sample: every cipher and every FEC class at least once
 		sc.Link.Cipher = cipherNames[q%len(cipherNames)]
+		// the deprecated SetDUP knob (dialled side, before traffic: see c15.go)
+		sc.CfgC.Dup = pick(rng, []int{0, 0, 0, 1, 2, 3})
 		for _, c := range []*sessCfg{&sc.CfgC, &sc.CfgS} {
 			if c.Mtu != 0 && c.Mtu < sc.Link.overhead()+IKCP_OVERHEAD+30 {
 				c.Mtu = 0
